@@ -15,6 +15,7 @@ Number forms (JSON-able lists):
   ['e', neg, digits6, eneg, e2]          d.dddddE[+-]ee   digits6 = 6 digit string, e2 = 2 digit string
   ['f', neg, intdigits, fracdigits]      plain decimal    e.g. 587.36644134661617
   ['s', text]                            a bare token (labels of the NAME column of cov files)
+  ['x', neg, digits6, eneg, e3]          d.ddddd[+-]eee   what Fortran prints for a three digit exponent
 """
 from fractions import Fraction
 
@@ -29,6 +30,8 @@ def num_text(x):
         return ('-' if x[1] else '') + x[2] + '.' + x[3]
     if k == 's':
         return x[1]
+    if k == 'x':      # Fortran 1PE12.5 with a three digit exponent: the E is dropped (1.00000-100)
+        return ('-' if x[1] else '') + x[2][0] + '.' + x[2][1:] + ('-' if x[3] else '+') + x[4]
     raise ValueError(x)
 
 
